@@ -399,7 +399,12 @@ FORMATTERS_PY = ('format_type', 'format_simple_type', 'format_generic_type', 'fo
 
 def flush(ctx, rep, T):
     for qual, file, imports_fn in (('Go::generate_types', 'language/go.rs', 'write_all_imports'), ('Python::generate_types', 'language/python.rs', 'write_all_imports')):
-        d = ctx.fn(qual, file=file)
+        d0 = ctx.fn(qual, file=file)
+        # private helper methods of the backend (a `write_preamble` holding the import block) are expanded; an expanded call
+        # is ordered by the line of the call that brought it in
+        helpers = tuple(g['name'].split('::')[-1] for g in ctx.astq['functions'] if g['file'] == d0['file'] and not g.get('trait') and g['name'].split('::')[-1] not in ('write_enum', 'write_struct', 'write_type_alias', 'write_const', imports_fn))
+        d = inline.view(ctx, d0, depth=2, force=())
+        d = dict(d, calls=[dict(c, line=c.get('via_line') or c.get('line')) for c in d['calls']])
         site = {'file': d['file'], 'line': d['line']}
         writer = next(p['name'] for p in d['params'] if 'Write' in (p.get('ty') or ''))
         writes = [c for c in d['calls'] if c.get('f') in ('write_enum', 'write_struct', 'write_type_alias', 'write_const')]
